@@ -97,6 +97,10 @@ fn log_ret(r: &str, v: i64, same: bool) {
         api = st.th[t].in_call.as_ref().and_then(|c| c["api"].as_str()).unwrap_or("").to_string();
         st.th[t].in_call = None;
         solo = st.th[t].solo_mark.take();
+        if !st.th[t].retrying {
+            // a finished call of a finite program is progress
+            st.since_progress = 0;
+        }
     }
     st.api.push(json!({"e":"ret","t":t,"r":r,"v":v,"same":same,"nops":n}));
     if let Some(bound) = solo {
